@@ -171,6 +171,7 @@ def snapshot_timer_monitor(lines, out):
         elif l.startswith("E ") and first:
             first = False
             em = re.search(r" E\[(.*?)\] A\[", l)
+            prev = None
             for proc, name, d in re.findall(r"T\(([^,]+),([^,]+),([^)]+)\)", em.group(1) if em else ""):
                 if (proc, name) in sets:
                     ts, dl = sets[(proc, name)]
@@ -178,6 +179,11 @@ def snapshot_timer_monitor(lines, out):
                     if d != want:
                         return (f"timer {name} of {proc} was set at time {ts} with delay {dl}; at the snapshot the clock is {clock}, so "
                                 f"{want} half-units remain, but ModelChecker::new hands it to the checker with {d}")
+                    # pending timers are registered in their real firing order (the checker's ids follow the registration order)
+                    if prev is not None and prev[0] > ts + dl:
+                        return (f"ModelChecker::new registers timer {prev[2]} of {prev[1]} (fires at {prev[0]}) before timer {name} of {proc} "
+                                f"(fires at {ts + dl}): not their real firing order, so the later one is not held back behind the earlier one")
+                    prev = (ts + dl, proc, name)
     return None
 
 
